@@ -1068,9 +1068,9 @@ class REPEX_state:
             writemode = "a" if restarted else "w"
             with open(self.pattern_file, writemode) as fp:
                 fp.write(
-                    "# Worker\tMD_start [s]\t\twMD_start [s]\twMD_end",
-                    +"[s]\tMD_end [s]\t Dask_end [s]",
-                    +f"\tEnsembles\t{self.start_time}\n",
+                    "# Worker\tMD_start [s]\t\twMD_start [s]\twMD_end"
+                    + "[s]\tMD_end [s]\t Dask_end [s]"
+                    + f"\tEnsembles\t{self.start_time}\n"
                 )
 
     def initiate_ensembles(self):
